@@ -211,6 +211,10 @@ func DelNamespace(name string, cfg *models.CCConfig, cluster string) error {
 	mConn := models.NewStore(client)
 	defer mConn.Close()
 
+	// keep the stored configuration (as stored): it is put back if the deletion fails on a proxy,
+	// as ModifyNamespace puts the previous configuration back when a proxy fails
+	existNamespace, _ := mConn.LoadOriginNamespace(name)
+
 	if err := mConn.DelNamespace(name); err != nil {
 		log.Warn("delete namespace %s failed, %s", name, err.Error())
 		return err
@@ -226,6 +230,11 @@ func DelNamespace(name string, cfg *models.CCConfig, cluster string) error {
 		err := proxy.DelNamespace(v.IP+":"+v.AdminPort, name, cfg)
 		if err != nil {
 			log.Warn("delete namespace %s in proxy %s failed, err: %s", name, v.IP, err.Error())
+			if existNamespace != nil {
+				if err2 := mConn.UpdateNamespace(existNamespace); err2 != nil {
+					return fmt.Errorf("delete namespace error:%s, rollback error:%s", err, err2)
+				}
+			}
 			return err
 		}
 	}
